@@ -369,10 +369,27 @@ func (fx *fctx) assignedIn(nodes []ast.Node) map[*types.Var]bool {
 	out := map[*types.Var]bool{}
 	seenLit := map[*ast.FuncLit]bool{}
 	var visit func(n ast.Node)
-	mark := func(x ast.Expr) {
-		if id := rootIdent(x); id != nil {
-			if v, ok := info.ObjectOf(id).(*types.Var); ok && !fx.isGlobal(v) {
+	var mark func(x ast.Expr)
+	mark = func(x ast.Expr) {
+		switch y := x.(type) {
+		case *ast.Ident:
+			if v, ok := info.ObjectOf(y).(*types.Var); ok && !fx.isGlobal(v) {
 				out[v] = true
+			}
+		case *ast.ParenExpr:
+			mark(y.X)
+		case *ast.SelectorExpr:
+			// a field of a struct-valued local modifies the local; through a pointer it is a heap write
+			if t := info.TypeOf(y.X); t != nil {
+				if _, isStruct := t.Underlying().(*types.Struct); isStruct {
+					mark(y.X)
+				}
+			}
+		case *ast.IndexExpr:
+			if t := info.TypeOf(y.X); t != nil {
+				if _, isArr := t.Underlying().(*types.Array); isArr {
+					mark(y.X)
+				}
 			}
 		}
 	}
@@ -566,6 +583,11 @@ func (fx *fctx) execLoop(st *State, s ast.Stmt, cond func(*State) *Term, body fu
 	}
 	bindAt := func(stt *State) map[string]*Value {
 		b := fx.visibleBindings(stt, pos)
+		if hiddenIdx != nil {
+			if v, ok := stt.vars[hiddenIdx]; ok {
+				b["rangeIdx"] = v
+			}
+		}
 		return b
 	}
 	evalInv := func(stt *State, cl *Clause) *Term {
